@@ -8,6 +8,7 @@ import (
 	"strings"
 	"sync"
 	"testing"
+	"time"
 
 	"filippo.io/sunlight/internal/ctlog"
 )
@@ -61,7 +62,11 @@ func TestHelperFS(t *testing.T) {
 		return rng.Bytes(1 + rng.Intn(3000))
 	}
 	for i := 0; i < n; i++ {
-		switch rng.Intn(6) {
+		shape := rng.Intn(6)
+		if envInt("VERIF_FS_RACE", 0) != 0 && i%2 == 0 {
+			shape = 6
+		}
+		switch shape {
 		case 0: // mutable singleton, overwritten again and again
 			upload("checkpoint", append([]byte(fmt.Sprintf("cp-%d-", i)), body()...), false)
 		case 1: // immutable key in a new nested directory
@@ -78,6 +83,19 @@ func TestHelperFS(t *testing.T) {
 				wg.Add(1)
 				go func() {
 					defer wg.Done()
+					upload(key, bd, true)
+				}()
+			}
+			wg.Wait()
+		case 6: // many goroutines into ONE brand-new directory (mkdir race)
+			var wg sync.WaitGroup
+			for j := 0; j < 8; j++ {
+				key := fmt.Sprintf("tile/3/n%03d/%03d", i, j)
+				bd := rng.Bytes(1 + rng.Intn(200))
+				wg.Add(1)
+				go func() {
+					defer wg.Done()
+					time.Sleep(time.Duration(j) * 2 * time.Millisecond) // the first goroutine creates the directory
 					upload(key, bd, true)
 				}()
 			}
